@@ -75,6 +75,20 @@ def gen_auth(repo):
     need(isinstance(inner, ast.If) and isinstance(inner.test, ast.Name)
          and inner.test.id == 'cookiefile_match', "if cookiefile_match")
     need(isinstance(inner.orelse[-1], ast.Raise), "no COOKIEFILE must raise")
+    # how the unescaped COOKIEFILE text becomes a file name: the assignments before the try
+    asg = [n for n in inner.body if isinstance(n, ast.Assign)]
+    need(all(len(a.targets) == 1 and isinstance(a.targets[0], ast.Name) and a.targets[0].id == 'cookiefile'
+             for a in asg) and len(asg) + 1 == len(inner.body), "cookiefile assignments then try")
+    need(len(asg) in (2, 3), "%d cookiefile assignments" % len(asg))
+    need(ast.dump(asg[0].value) == ast.dump(ast.parse("cookiefile_match.group(1)", mode='eval').body),
+         "cookiefile = cookiefile_match.group(1)")
+    need(ast.dump(asg[1].value) == ast.dump(ast.parse("unescape_quoted_string(cookiefile)", mode='eval').body),
+         "cookiefile = unescape_quoted_string(cookiefile)")
+    path_decode = 'PDCodePoints'
+    if len(asg) == 3:
+        need(ast.dump(asg[2].value) == ast.dump(ast.parse("os.fsdecode(cookiefile.encode('latin-1'))", mode='eval').body),
+             "cookiefile = os.fsdecode(cookiefile.encode('latin-1'))")
+        path_decode = 'PDLatin1Bytes'
     tr = [n for n in inner.body if isinstance(n, ast.Try)]
     need(len(tr) == 1 and len(tr[0].handlers) == 1, "try/except around _read_cookie")
     h = tr[0].handlers[0]
@@ -151,6 +165,10 @@ def gen_auth(repo):
            'Inductive akind := AKSafe | AKCookie | AKPassword | AKNull.',
            'Definition auth_order : list (akind * string) := %s.' % coq_list(
                '(%s, %s)' % (k, coq_string(n)) for k, n in order),
+           '(* PDCodePoints: open() gets the code points of the unescaped text (UTF-8 encoded by the OS layer);',
+           '   PDLatin1Bytes: the unescaped text is re-encoded latin-1, i.e. the bytes Tor escaped *)',
+           'Inductive pathdec := PDCodePoints | PDLatin1Bytes.',
+           'Definition cookie_path_decode : pathdec := %s.' % path_decode,
            'Definition cookie_len : N := %d%%N.' % cookie_len,
            'Definition nonce_len : N := %d%%N.' % nonce_len,
            'Definition server_key : string := %s.' % coq_string(keys['expected_server_hash']),
